@@ -231,6 +231,20 @@ func c16EC(c *fw.Case, typ string, x, y *big.Int) {
 	} else if got.X != wantJWK["x"] || got.Y != wantJWK["y"] {
 		c.Failf("wrong-coordinates", w1, "encoded coordinates differ from the key's")
 	}
+	// the mirror point (x, p-y) is another key with the same x: converted next, it gets its own y, and the first key converted once
+	// more still gets its own
+	{
+		my := new(big.Int).Sub(gen.Curve(typ).Params().P, y)
+		mirror := &ecdsa.PublicKey{Curve: gen.Curve(typ), X: x, Y: my}
+		mj, merr := pubkey.GetPublicKeyJWK(mirror)
+		again, aerr := pubkey.GetPublicKeyJWK(pub)
+		c.Count("mirror-point-conversions", 1)
+		c.Evals(2)
+		if merr != nil || aerr != nil || mj.X != wantJWK["x"] || mj.Y != oracle.B64(padTo(my.Bytes(), w)) || again.X != wantJWK["x"] || again.Y != wantJWK["y"] {
+			c.Failf("wrong-coordinates", map[string]interface{}{"curve": typ, "key": wantJWK, "mirror_key_y": oracle.B64(padTo(my.Bytes(), w)), "mirror_converted_to": mj, "key_converted_again_to": again, "err": fmt.Sprint(merr, aerr)},
+				"a key and its mirror point (same x, y negated) converted one after the other do not each get their own coordinates")
+		}
+	}
 	// read back
 	jb, _ := json.Marshal(got)
 	var back jwsutil.JWK
